@@ -236,6 +236,15 @@ ADDED8 = {
 for _k, _v in ADDED8.items():
     CLAIMED[_k]['text'] += ' Round 7: ' + _v
 
+ADDED9 = {
+ 'C01': 'R18: what update() / create_track store for a snapshot field is computed from the snapshot on every path - no alternative of the written value is the stored value of the same location carried over (objects handed to helpers by non-const reference are followed). Not detected (recorded): a zero-means-absent convention introduced jointly by a row reader and writer (value level).',
+ 'C12': 'X7: no CREATE / ALTER / DROP outside the schema creator classes.',
+ 'C13': 'Y9: no process-wide memory of what was detected (mutable namespace-scope variables, assigned statics; N1 of C10, schema/ included); a rule that cannot be decided no longer aborts the check.',
+ 'C15': 'U15: the library installs no busy handler (a call on a locked database terminates).',
+}
+for _k, _v in ADDED9.items():
+    CLAIMED[_k]['text'] += ' Round 8: ' + _v
+
 NOT_APPLICABLE = {
  'C19': 'numerical result of integer/floating arithmetic over all inputs (ceiling division, quantisation, minimality, monotonicity): no structural clause beyond the division guard, which C15-U6 covers; a sound decision needs an arithmetic solver or proof (different family)',
  'C20': 'floating-point numerical behaviour of beat-grid extrapolation (bracketing, tempo preservation, idempotence up to rounding); only the iterator arithmetic is shape-visible and is covered by C15-U3',
